@@ -68,10 +68,30 @@ def program_family(res, tier, rnd):
                 script += [P.DO("send", msg=P.U(k)) for k in range(n)] + [P.DO("quit"), P.W("returned")]
                 scs.append(P.scenario(len(scs), script, opts={"fps": fps}, parallel_ok=True, watchdog_ms=4000, **extra))
                 metas.append({"fps": fps, "updates": n, "variant": variant})
+    for grow in ((10, 40), (12, 33), (20, 80)):
+        # the window is widened while a line wider than the old window is on the screen and stays unchanged: when the
+        # program quits the whole line must be there (the size messages are sent by the application; the output is replayed
+        # on a terminal of the final width)
+        w0, w1 = grow
+        script = [P.W("started"), P.DO("send", msg=P.B("windowsizemsg", w=w0, h=8)), P.W("idle"), P.DO("send", msg=P.U(1)), P.DO("sleep", us=30000), P.W("idle"),
+                  P.DO("send", msg=P.B("windowsizemsg", w=w1, h=8)), P.DO("sleep", us=30000), P.W("idle"), P.DO("send", msg=P.U(2)), P.DO("sleep", us=30000), P.W("idle"),
+                  P.DO("quit"), P.W("returned")]
+        scs.append(P.scenario(len(scs), script, opts={"fps": 120}, view={"pad": 2, "at": 1}, parallel_ok=True, watchdog_ms=4000))
+        metas.append({"variant": "widen", "from": w0, "to": w1, "fps": 120, "updates": 2})
     results, _ = P.run_scenarios("C07_prog", scs, timeout=600)
     bad = []
     import re as _re
+    from .. import widevt as W
     for m, r in zip(metas, results):
+        if m["variant"] == "widen" and not (P.machinery_problem(r) or not r["run_returned"]):
+            vt = W.VT(m["to"], 8)
+            okf = vt.feed(bytes(r["output"]))
+            full = ["row 00 ..........................", "view %d" % r["final_ver"], "row 02 .........................."]
+            want = [W.truncate(l, m["to"]) for l in full][:2]      # (the last line has no newline: stop erases it, as the property says)
+            got = vt.window()[:2]
+            if not okf or got != want:
+                bad.append((m, "the window was widened from %d to %d columns; after the quit the screen shows %r, the final view is %r" % (m["from"], m["to"], got, want)))
+            continue
         if P.machinery_problem(r) or not r["run_returned"] or r["run_err"] != "nil":
             bad.append((m, "scenario did not complete: %s" % P.summarize(r)["run_err"]))
             continue
